@@ -93,3 +93,18 @@ def uses_all(D, n):
     for k in D:
         s.update(k)
     return len(s) == n
+
+
+def permute_mapping(M, how):
+    """Give a labelled model a user-chosen enumeration through the documented set_mapping / set_reverse_mapping:
+    the cyclic shift i -> (i+1) mod n of its current one (a 3-cycle for n = 3: not its own inverse)."""
+    mp = M.mapping
+    n = len(mp)
+    if n < 2:
+        return M
+    new = {l: (i + 1) % n for l, i in mp.items()}
+    if how == "setmap":
+        M.set_mapping(new)
+    else:
+        M.set_reverse_mapping({i: l for l, i in new.items()})
+    return M
